@@ -93,6 +93,30 @@ Proof.
   split; [exact Hrun|]. split; [vm_compute; auto 20|exact range_not_linearizable].
 Qed.
 
+(* PARTIAL.  Full statement (not proved):
+     c20_lin_range_single_writer : every history of the repaired model in which each Range / ForEach overlaps
+     mutating primitives on at most one key is linearizable (the Range linearizes just after its visit of that
+     key if the write came earlier, else at its start).
+   Gap: the proof needs the linearization point of a Range to be inserted at a position that depends on the
+   future of the trace, and an invariant relating the partial result to the map "up to the written key"; only
+   the interference-free case is proved here: a Range whose steps are not interleaved with steps of other
+   threads reports exactly the map (every key agrees).  The single-writer case is covered by the
+   correspondence only: histories with a Range overlapping one write are recorded from the real containers on
+   every run and must pass the brute-force linearizability check. *)
+Theorem c20_lin_range_single_writer_partial : forall rep sched c c' tr t ops acc,
+  sthr c t = mkThread (TInv ORange) ops ->
+  (forall x, In x sched -> fst x = t) ->
+  srun rep c sched = Some (c', tr) ->
+  tstate (sthr c' t) = TRes ORange (RList acc) ->
+  (forall e, In e tr -> match snd e with ERes _ _ => False | _ => True end) ->
+  sm c' = sm c /\ forall k, get acc k = get (sm c) k.
+Proof.
+  intros rep sched c c' tr t ops acc Hst Ht Hrun Hend Hnr.
+  destruct (range_alone rep sched c c' tr t Ht) as [Hm Hinv]; try assumption.
+  - unfold range_inv. rewrite Hst. exact I.
+  - split; [assumption|]. unfold range_inv in Hinv. rewrite Hend in Hinv. exact Hinv.
+Qed.
+
 (* ---------- data races of the two concurrent phases --------------------------------------------------- *)
 
 (* `phase_prog fp n passes fails`: main runs `passes` rounds (the loop over the definition scanners; 1 for
